@@ -184,6 +184,14 @@ class CmpExtractor:
             acc = True
         return rej
 
+    def branch_accepts_early(self, n):
+        for x in walk(n):
+            if x.get("k") == "Continue":
+                return True
+            if x.get("k") == "Return" and x.get("e") is not None and self.is_reject_value(x["e"]) is False:
+                return True
+        return False
+
     # ---- recording -------------------------------------------------------
     def add(self, kind, **kw):
         f = Fact(kind=kind, arm=self.arm, **kw)
@@ -329,6 +337,17 @@ class CmpExtractor:
             f_rej = self.branch_rejects(n.get("f")) if n.get("f") else False
             rw = True if (t_rej and not f_rej) else (False if (f_rej and not t_rej) else None)
             envc = env
+            # an accepting shortcut (continue / return of the accepting value) taken on a condition that reads only ONE operand
+            # bypasses the remaining comparisons for inputs that differ on the other side
+            for br in (n["t"], n.get("f")):
+                if br is not None and self.branch_accepts_early(br):
+                    roots = set()
+                    for x in walk(n["c"]):
+                        v = self.pv(x, env)
+                        if self.is_path(v):
+                            roots.add(v[0])
+                    if len(roots) == 1:
+                        self.add("one-sided-shortcut", roots=sorted(roots), cond=self.describe(n["c"], env))
             self.cond(n["c"], envc, rw)
             self.body_expr(n["t"], dict(env), result)
             if n.get("f"):
